@@ -89,7 +89,7 @@ def enc (s : String) : String :=
   if s.isEmpty then "%" else
   String.ofList (s.toUTF8.toList.flatMap (fun b =>
     let n := b.toNat
-    if n > 0x20 ∧ n < 0x7f ∧ n != 37 then [Char.ofNat n] else ['%', hexDigit (n / 16), hexDigit (n % 16)]))
+    if n > 0x20 ∧ n < 0x7f ∧ n != 37 ∧ n != 124 ∧ n != 61 then [Char.ofNat n] else ['%', hexDigit (n / 16), hexDigit (n % 16)]))
 
 def pKind : P Kind
   | "o" :: ts => some (.open, ts)
